@@ -481,3 +481,15 @@ func certurlChain(spec string) certurl.CertChain {
 	}
 	return chain
 }
+
+// signer for the concurrency op: <certder> <certurl> <validityurl> <date> <expires>, mock algorithm (deterministic)
+func mkSignerForConc(rest []string) *sxg.Signer {
+	cert, err := x509.ParseCertificate(ofHex(rest[0]))
+	if err != nil {
+		panic("bad-op")
+	}
+	d, _ := strconv.ParseInt(rest[3], 10, 64)
+	x, _ := strconv.ParseInt(rest[4], 10, 64)
+	return &sxg.Signer{Certs: []*x509.Certificate{cert}, CertUrl: mustURL(rest[1]), ValidityUrl: mustURL(rest[2]),
+		Date: time.Unix(d, 0), Expires: time.Unix(x, 0), Algorithm: &signingalgorithm.MockSigningAlgorithm{}}
+}
